@@ -340,7 +340,8 @@ def execute_agent(case):
 
 def dbus_signals(obj, member):
     import dbus
-    return [e for e in dbus.RECORDER.events if e['kind'] == 'signal' and e['obj'] is obj and e['member'] == member]
+    # (what an observer on the bus gets: a signal raised by an object that has left the bus goes nowhere)
+    return [e for e in dbus.RECORDER.events if e['kind'] == 'signal' and e['obj'] is obj and e['member'] == member and e.get('exported', True)]
 
 
 def execute(case):
